@@ -176,6 +176,8 @@ type USpec struct {
 	// EmptyFacts / EmptyProofs: the option is given with an empty, non-nil list
 	EmptyFacts  bool `json:"emptyFacts,omitempty"`
 	EmptyProofs bool `json:"emptyProofs,omitempty"`
+	// Attach: blocks attached to the freshly issued token before it is stored
+	Attach int `json:"attach,omitempty"`
 }
 
 func preOpts(l []string) []delegation.Option {
@@ -190,6 +192,10 @@ func preOpts(l []string) []delegation.Option {
 			out = append(out, delegation.WithNotBefore(atoi(o[4:])))
 		case strings.HasPrefix(o, "nnc:"):
 			out = append(out, delegation.WithNonce(o[4:]))
+		case strings.HasPrefix(o, "prf:"):
+			if c, err := cid.Decode(o[4:]); err == nil {
+				out = append(out, delegation.WithProof(delegation.FromLink(cidlink.Link{Cid: c})))
+			}
 		}
 	}
 	return out
